@@ -3,7 +3,7 @@ import DafRel.Props.C17
 #print axioms DafRel.Props.C17.apply_skip_records_slots
 #print axioms DafRel.Props.C17.apply_skip_content
 #print axioms DafRel.Props.C17.conform_marker_wraps
-#print axioms DafRel.Props.C17.conform_preserves_rows_joinfree
-#print axioms DafRel.Props.C17.conform_idempotent_joinfree
+#print axioms DafRel.Props.C17.conform_preserves_rows
+#print axioms DafRel.Props.C17.conform_idempotent
 #print axioms DafRel.Props.C17.append_unary_to_select_sound
-#print axioms DafRel.Props.C17.sql_apply_sound_joinfree
+#print axioms DafRel.Props.C17.sql_apply_sound
